@@ -18,6 +18,8 @@ import (
 	"os/exec"
 	"path/filepath"
 	"runtime"
+	"runtime/debug"
+	"runtime/pprof"
 	"sort"
 	"strconv"
 	"strings"
@@ -58,6 +60,7 @@ func goEnv() []string {
 }
 
 func main() {
+	debug.SetGCPercent(400)
 	if len(os.Args) < 2 {
 		fmt.Fprintln(os.Stderr, "usage: gosym check|replay|run|selftest ...")
 		os.Exit(2)
@@ -274,6 +277,12 @@ func cmdRun(args []string) int {
 		}
 		if strings.HasPrefix(a, "-max=") {
 			maxPaths, _ = strconv.ParseInt(a[5:], 10, 64)
+			continue
+		}
+		if strings.HasPrefix(a, "-prof=") {
+			f, _ := os.Create(a[6:])
+			pprof.StartCPUProfile(f)
+			defer pprof.StopCPUProfile()
 			continue
 		}
 		if strings.HasPrefix(a, "-xval=") {
